@@ -39,7 +39,7 @@ func jobList(r *evid.Run) []string {
 			jobs = append(jobs, fmt.Sprintf("v2|%d|%s", n, e))
 		}
 	}
-	jobs = append(jobs, "single")
+	jobs = append(jobs, "single", "sigs")
 	return jobs
 }
 
@@ -48,6 +48,11 @@ func runJob(r *evid.Run, scr, job string) interface{} {
 	var n int
 	if job == "single" {
 		return runSingle(scr)
+	}
+	if job == "sigs" {
+		f := newFixtureB(scr)
+		defer f.node.Close()
+		return f.runSignatureSets()
 	}
 	if _, err := fmt.Sscanf(job, "ms|%d", &n); err == nil {
 		f := newFixtureA(scr, n)
@@ -105,7 +110,7 @@ func main() {
 	classes := &evid.Distinct{}
 	panicSites := map[string]int{}
 	samples := &evid.Samples{N: 10}
-	var singleN, repRej, repAcc int
+	var singleN, repRej, repAcc, sigN int
 	var poolPool []string
 	singleClasses := &evid.Distinct{}
 	perJob := map[string]interface{}{}
@@ -113,6 +118,16 @@ func main() {
 		if w.Died || w.Out == nil {
 			os.RemoveAll(scr)
 			evid.Fatalf("worker %s died (timeout=%v, announced %q): %s", jobs[i], w.TimedOut, w.Announced, w.Stderr)
+		}
+		if jobs[i] == "sigs" {
+			var xs []sigRes
+			if err := json.Unmarshal(w.Out, &xs); err != nil {
+				os.RemoveAll(scr)
+				evid.Fatalf("sigs worker output: %v", err)
+			}
+			sigN = len(xs)
+			judgeSignatureSets(r, xs, singleClasses)
+			continue
 		}
 		if jobs[i] == "single" {
 			var xs []singleRes
@@ -164,10 +179,11 @@ func main() {
 		"part (a) judges SpecialContextCheck verdicts (signatures are verified later by the common path); part (b) uses fully signed transactions through CheckTransactionSanity/CheckTransactionContext, CheckDuplicateTx and TxPool.AppendToTxPoolWithoutEvent",
 		"ArbitratorsMock reports the current arbitrators as the cross-chain arbiters; the CRC arbitrators are set to the same keys")
 	r.Finish(evid.Coverage{
-		"evaluations":         evals + int64(singleN),
-		"distinct_nontrivial": classes.Len() + singleClasses.Len(),
+		"evaluations":            evals + int64(singleN) + int64(sigN),
+		"signature_set_verdicts": sigN,
+		"distinct_nontrivial":    classes.Len() + singleClasses.Len(),
 		"rule": "(a) SpecialContextCheck verdicts: V2 signer lists (all lists of length <=4 over {0,1,n-1,n,255}; n=12: appended to 8 distinct existing signers) x 4 eras (3 at {R-1,R,R+1}; the boundary era at -1/=/+1 around CRClaimDPOSNodeStartHeight and DPOSNodeCrossChainHeight) x 6 program variants x 6 reference mixes (quick: variants crossed one dimension at a time); V0/V1: 9 key-list variants x m in {1,req-1,req,req+1,n,n+1} x n byte in {len,len+1,len-1} x {single, valid-first, valid-last} x reference mixes x 4 eras x their heights; accepted => oracle clauses. " +
-			"(b) 3x3 (first, repeat) payload versions x {later-block, same-block, pool-after-chain, pool-pool} with fully signed transactions, plus 8 output layouts (repeated hash among change and other withdraw outputs) per version pair; a repeat must be refused, controls (first, fresh hash) must be accepted. non-trivial = distinct (version, era, band, variant, verdict) classes",
+			"(a-sig) fully built V0/V1 withdrawals whose 3-of-4 program is signed by 12 arbiter multisets (one arbiter signing 2-4 times with distinct valid signatures, m-1 arbiters plus a second signature of one of them, too few, controls) through CheckTransactionSanity+Context: accepted => signatures of at least m DISTINCT arbiters; (b) 3x3 (first, repeat) payload versions x {later-block, same-block, pool-after-chain, pool-pool} with fully signed transactions, plus 8 output layouts (repeated hash among change and other withdraw outputs) per version pair; a repeat must be refused, controls (first, fresh hash) must be accepted. non-trivial = distinct (version, era, band, variant, verdict) classes",
 		"exhaustive":                 true,
 		"verdicts":                   evals,
 		"verdicts_accepted":          accepted,
@@ -224,6 +240,14 @@ func replay(r *evid.Run, scr string) {
 				}
 			}
 		}
+		f.node.Close()
+	case "signature-set":
+		f := newFixtureB(scr)
+		xs := f.runSignatureSets()
+		for _, x := range xs {
+			fmt.Printf("%+v\n", x)
+		}
+		judgeSignatureSets(r, xs, &evid.Distinct{})
 		f.node.Close()
 	case "single-use":
 		var c singleRes
